@@ -587,3 +587,16 @@ def oracle_zoom(case, il, bed):
                 if g not in allr:
                     return f"zoom range query {q[2]}:{s}-{e} level {res} returns a record {g} the level does not hold"
     return None
+
+
+def many_contigs(n=300, per=3):
+    """n small chromosomes with `per` values each: more data sections than the index's default fan-out (256), so the index has
+    an upper level whose nodes span chromosome boundaries — with DEFAULT options. -> (names, sizes, {name: [(s, e, v)]})"""
+    names = [f"contig_{i:04d}" for i in range(n)]
+    sizes = {nm: 5000 + 7 * i for i, nm in enumerate(names)}
+    data = {}
+    for i, nm in enumerate(names):
+        base = (i * 37) % 900                       # extents shrink and grow from one chromosome to the next
+        data[nm] = [(base + 20 * j, base + 20 * j + 5 + (i + j) % 9, 1 + (i + j) % 7) for j in range(per)]
+    return names, sizes, data
+
